@@ -13,6 +13,7 @@ mod h_c05;
 mod h_c09;
 mod h_c10;
 mod h_c12;
+mod h_c17;
 mod h_ps;
 mod h_rr;
 mod h_ws;
@@ -49,6 +50,8 @@ fn harnesses() -> Vec<Box<dyn Harness>> {
         Box::new(h_c12::AtomicHarness { typed: false }),
         Box::new(h_c12::AtomicHarness { typed: true }),
         Box::new(h_zc::ConnLifecycleHarness),
+        Box::new(h_c17::ShutdownHarness { ipc: false }),
+        Box::new(h_c17::ShutdownHarness { ipc: true }),
         Box::new(h_ws::WaitSetHarness { ipc: false }),
         Box::new(h_ws::WaitSetHarness { ipc: true }),
     ]
@@ -81,6 +84,7 @@ fn spec_for<'a>(hs: &'a [Box<dyn Harness>], prop: &'a str) -> CheckSpec<'a> {
         "C01" | "C02" | "C08" => "one evaluation = one simulated history of 10..90 API calls (create/drop publisher and subscriber, loan, send, send_copy, drop loan, receive, drop sample, update_connections, has_samples, loan-to-exhaustion probe) on up to 3 publishers and 3 subscribers of one publish-subscribe service (local and ipc variants), QoS drawn per run (buffer 1..4, history 0..3, history request, max borrow 1..3, max loaned 1..3, overflow on/off, port limits 1..3), each call compared with a reference model of delivery/eviction/history/expired connections (C01), with canary payloads re-read after every call and loan-to-exhaustion probes (C02), and with the limit model (C08). Each run executes in a forked child of a warmed-up worker. distinct_nontrivial = distinct operation histories",
         "C11" => "one evaluation = one simulated history of 12..62 API calls on up to 2 clients and 2 servers of one request-response service (create/drop client or server with their pending responses/active requests going first or outliving them, send request, drop pending response, server receive, send response on any held active request, drop active request, receive on any pending response), limits 1..3, overflow and fire-and-forget drawn per run; self-describing payloads give a routing / order / at-most-once / disconnect oracle. Each run executes in a forked child. distinct_nontrivial = distinct operation histories",
         "C20" => "one evaluation = one simulated history of 8..50 calls on one wait set with 1..4 listeners on 1..2 event services: attach notification / deadline / interval, drop guard, destroy and re-create a listener (descriptor re-use), notify, notify from inside the callback, advance the virtual clock, process with zero timeout; a model of live attachments, pending events and deadline/interval expiry predicts the exact set of callbacks of every processing call. Each run executes in a forked child. distinct_nontrivial = distinct operation histories",
+        "C17" => "one evaluation = one simulated life of an object graph (1..2 nodes, two service handles, two ports, loaned and received sample / pending response, active request, response / notifier, listener) for one of the three patterns publish-subscribe, request-response, event: the seeded plan interleaves 'drop some still living object' with uses of whatever is alive; afterwards the file system is scanned for leftovers and the name is created again with different settings. distinct_nontrivial = distinct (pattern, node count, complete drop order) triples",
         "C09" => "one evaluation = one simulated execution of 2..3 threads doing generated acquire/release(/lock-if-last) sequences on a real index set or pool allocator of capacity 1..4, one run in four of the robust set kills a thread mid-operation and recovers its owner id; distinct_nontrivial = distinct (plan, schedule/fault signature) pairs among runs with at least one context switch or injected fault",
         _ => "one evaluation = one simulated execution of a generated scenario; distinct_nontrivial = distinct (plan, schedule/fault signature) pairs among runs with at least one context switch or injected fault",
     };
